@@ -109,6 +109,13 @@ func c18Indicator(cc *run.Case, ind *reg.Indicator, cfg reg.Cfg, class string, n
 		got := runInd(ind.New(cfg), scaledIn)
 		refS := ind.Ref(cfg, scaledIn)
 		refO := ind.Ref(cfg, inputs)
+		// An indicator that is known to deviate from its documented formula (C01
+		// finding) amplifies rounding the way its AS-BUILT formula does: the
+		// conditioning (Ill, S) of its deviation models counts as well.
+		var devS [][][]reg.RV
+		for _, d := range ind.Devs {
+			devS = append(devS, d.Ref(cfg, scaledIn), d.Ref(cfg, inputs))
+		}
 		expect := make([][]reg.RV, len(base))
 		for j := range base {
 			d := degOf(ind, j)
@@ -121,6 +128,12 @@ func c18Indicator(cc *run.Case, ind *reg.Indicator, cfg reg.Cfg, class string, n
 				}
 				if j < len(refO) && k < len(refO[j]) && refO[j][k].Ill {
 					rv.Ill = true
+				}
+				for _, dr := range devS {
+					if j < len(dr) && k < len(dr[j]) {
+						rv.Ill = rv.Ill || dr[j][k].Ill
+						rv.S = math.Max(rv.S, dr[j][k].S*4)
+					}
 				}
 				expect[j][k] = rv
 			}
